@@ -39,6 +39,148 @@ theorem nodup_split_unique (l : List Nd) (hn : l.Nodup) (p : Nd) :
       obtain ⟨e1, e2⟩ := ih (a1' ++ p :: a2) (List.nodup_cons.1 hn).2 a2 c1' c2 rfl h2
       exact ⟨by rw [e1], e2⟩
 
+/-! ## a linear order of the operation nodes -/
+
+/-- `ns` is a linear order of the operation nodes compatible with every register path: each `body w` is the sub-list of
+    `ns` of the nodes on it -/
+def LinOK (W : List Wire) (body : Wire → List Nd) (ns : List Nd) : Prop :=
+  ns.Nodup ∧ (∀ n ∈ ns, ∃ w ∈ W, n ∈ body w) ∧ ∀ w ∈ W, body w = ns.filter (fun n => decide (n ∈ body w))
+
+theorem linOK_insert (W : List Wire) (body : Wire → List Nd) (ns : List Nd) (h : LinOK W body ns) (wq : Wire) (hwq : wq ∈ W)
+    (b1 b2 : List Nd) (p x : Nd) (hb : body wq = b1 ++ p :: b2) (hnd : (body wq).Nodup)
+    (hx : x ∉ ns) (hxb : ∀ w ∈ W, x ∉ body w) :
+    ∃ ns', LinOK W (upd body wq (b1 ++ x :: p :: b2)) ns' := by
+  obtain ⟨hn, hmem, hfil⟩ := h
+  have hp : p ∈ ns := by
+    have : p ∈ body wq := by rw [hb]; simp
+    rw [hfil wq hwq] at this
+    exact (List.mem_filter.1 this).1
+  obtain ⟨a1, a2, rfl⟩ := List.append_of_mem hp
+  have hxp : x ≠ p := fun hxp => hx (hxp ▸ hp)
+  refine ⟨a1 ++ x :: p :: a2, ?_, ?_, ?_⟩
+  · have hperm : (a1 ++ x :: p :: a2).Perm (x :: (a1 ++ p :: a2)) := List.perm_middle
+    exact hperm.nodup_iff.2 (List.nodup_cons.2 ⟨hx, hn⟩)
+  · intro n hn'
+    have hcases : n = x ∨ n ∈ a1 ++ p :: a2 := by
+      simp only [List.mem_append, List.mem_cons] at hn' ⊢; tauto
+    rcases hcases with rfl | hn''
+    · exact ⟨wq, hwq, by rw [upd_same]; simp⟩
+    · obtain ⟨w, hw, hnw⟩ := hmem n hn''
+      refine ⟨w, hw, ?_⟩
+      by_cases hk : w = wq
+      · subst hk
+        rw [upd_same]
+        rw [hb] at hnw
+        simp only [List.mem_append, List.mem_cons] at hnw ⊢; tauto
+      · rw [upd_other body wq w _ hk]; exact hnw
+  · intro w hw
+    by_cases hk : w = wq
+    · subst hk
+      rw [upd_same]
+      have hold := hfil w hw
+      rw [List.filter_append, List.filter_cons] at hold
+      have hpin : decide (p ∈ body w) = true := by rw [hb]; simp
+      rw [if_pos hpin] at hold
+      have hsplit := nodup_split_unique (body w) hnd p b1 b2 _ _ hb hold
+      have hcong : ∀ a : List Nd, x ∉ a → a.filter (fun n => decide (n ∈ b1 ++ x :: p :: b2))
+          = a.filter (fun n => decide (n ∈ body w)) := by
+        intro a hxa
+        apply List.filter_congr
+        intro n hna
+        have : n ≠ x := fun h' => hxa (h' ▸ hna)
+        rw [hb]
+        simp only [List.mem_append, List.mem_cons, this, false_or]
+      have hxa1 : x ∉ a1 := fun h' => hx (by simp [h'])
+      have hxa2 : x ∉ a2 := fun h' => hx (by simp [h'])
+      rw [List.filter_append, List.filter_cons, List.filter_cons, hcong a1 hxa1, hcong a2 hxa2]
+      have h1 : decide (x ∈ b1 ++ x :: p :: b2) = true := by simp
+      have h2 : decide (p ∈ b1 ++ x :: p :: b2) = true := by simp
+      rw [if_pos h1, if_pos h2, ← hsplit.1, ← hsplit.2]
+    · rw [upd_other body wq w _ hk]
+      have hold := hfil w hw
+      have hxw : decide (x ∈ body w) = false := by simpa using hxb w hw
+      rw [List.filter_append] at hold
+      rw [List.filter_append, List.filter_cons, hxw]
+      exact hold
+
+theorem linOK_remove (W : List Wire) (body : Wire → List Nd) (ns : List Nd) (h : LinOK W body ns) (wq : Wire) (hwq : wq ∈ W)
+    (b1 b2 : List Nd) (p : Nd) (hb : body wq = b1 ++ p :: b2) (hnd : (body wq).Nodup)
+    (honly : ∀ w ∈ W, w ≠ wq → p ∉ body w) :
+    ∃ ns', LinOK W (upd body wq (b1 ++ b2)) ns' := by
+  obtain ⟨hn, hmem, hfil⟩ := h
+  have hp1 : p ∉ b1 ∧ p ∉ b2 := by
+    rw [hb] at hnd
+    have hperm : (b1 ++ p :: b2).Perm (p :: (b1 ++ b2)) := List.perm_middle
+    have := (List.nodup_cons.1 (hperm.nodup_iff.1 hnd)).1
+    simp only [List.mem_append, not_or] at this
+    exact this
+  refine ⟨ns.filter (fun n => n != p), hn.filter _, ?_, ?_⟩
+  · intro n hn'
+    obtain ⟨hn1, hn2⟩ := List.mem_filter.1 hn'
+    have hne : n ≠ p := by simpa using hn2
+    obtain ⟨w, hw, hnw⟩ := hmem n hn1
+    refine ⟨w, hw, ?_⟩
+    by_cases hk : w = wq
+    · subst hk
+      rw [upd_same]
+      rw [hb] at hnw
+      simp only [List.mem_append, List.mem_cons] at hnw ⊢; tauto
+    · rw [upd_other body wq w _ hk]; exact hnw
+  · intro w hw
+    rw [List.filter_filter]
+    by_cases hk : w = wq
+    · subst hk
+      rw [upd_same]
+      have hold := hfil w hw
+      have e1 : ns.filter (fun a => decide (a ∈ b1 ++ b2) && (a != p))
+          = (ns.filter (fun n => decide (n ∈ body w))).filter (fun n => n != p) := by
+        rw [List.filter_filter]
+        apply List.filter_congr
+        intro n _
+        rw [hb]
+        by_cases hnp : n = p
+        · subst hnp
+          simp [hp1.1, hp1.2]
+        · simp [hnp, Bool.and_comm]
+      rw [e1, ← hold, hb, List.filter_append, List.filter_cons]
+      have e2 : b1.filter (fun n => n != p) = b1 := by
+        rw [List.filter_eq_self]; intro a ha; simpa using (fun h' : a = p => hp1.1 (h' ▸ ha))
+      have e3 : b2.filter (fun n => n != p) = b2 := by
+        rw [List.filter_eq_self]; intro a ha; simpa using (fun h' : a = p => hp1.2 (h' ▸ ha))
+      rw [e2, e3]
+      simp
+    · rw [upd_other body wq w _ hk]
+      have hold := hfil w hw
+      have e1 : ns.filter (fun a => decide (a ∈ body w) && (a != p)) = ns.filter (fun n => decide (n ∈ body w)) := by
+        apply List.filter_congr
+        intro n _
+        by_cases hnw : n ∈ body w
+        · have : n ≠ p := fun h' => honly w hw hk (h' ▸ hnw)
+          simp [hnw, this]
+        · simp [hnw]
+      rw [e1]; exact hold
+
+theorem filter_singleton_of_trip (l : List Edge) (hn : (l.map trip).Nodup) (P : Edge → Bool) (x : Edge) (hx : x ∈ l) (hPx : P x = true)
+    (hall : ∀ e ∈ l, P e = true → trip e = trip x) : l.filter P = [x] := by
+  induction l with
+  | nil => cases hx
+  | cons a rest ih =>
+    rw [List.map_cons, List.nodup_cons] at hn
+    rcases List.mem_cons.1 hx with rfl | hxr
+    · have : rest.filter P = [] := by
+        rw [List.filter_eq_nil_iff]
+        intro e he hPe
+        have := hall e (List.mem_cons_of_mem _ he) hPe
+        exact hn.1 (this ▸ List.mem_map_of_mem he)
+      rw [List.filter_cons, if_pos hPx, this]
+    · have hPa : P a = false := by
+        apply Bool.eq_false_iff.2
+        intro hPa
+        have := hall a (by simp) hPa
+        exact hn.1 (this ▸ List.mem_map_of_mem hxr)
+      rw [List.filter_cons, hPa]
+      exact ih hn.2 hxr (fun e he => hall e (List.mem_cons_of_mem _ he))
+
 /-! ## the invariant carried through the normalisation -/
 
 structure NInv (W : List Wire) (g : MG) (body : Wire → List Nd) : Prop where
@@ -46,6 +188,8 @@ structure NInv (W : List Wire) (g : MG) (body : Wire → List Nd) : Prop where
   onPath : ∀ n o, g.opOf n = some (.gate o) → ∀ w' ∈ opWires o, w' ∈ W ∧ n ∈ body w'
   names : (g.nodes.map (·.1)).Nodup
   ids : ∀ n ∈ g.nodes.map (·.1), ∀ k, n = .op k → k ≤ g.nodeId
+  trips : TripNodup g
+  lin : ∃ ns, LinOK W body ns
 
 theorem insertAt_eq (g : MG) (o : Op) (e : Edge) :
     g.insertAt o e = (g.addNode (g.nodeId + 1) (.gate o)).splice e (.op (g.nodeId + 1)) := rfl
@@ -98,7 +242,7 @@ theorem NInv.insertBefore {W : List Wire} {g : MG} {body : Wire → List Nd} (h 
   have hold : ∀ m, m ∈ g.nodes.map (·.1) → (g.insertAt o e).opOf m = g.opOf m :=
     fun m hm => opOf_append_old g _ _ hnodes m hm
   have hnew : (g.insertAt o e).opOf (.op (g.nodeId + 1)) = some (.gate o) := hxo
-  refine ⟨⟨r', ?_, ?_, ?_⟩, hold, hnew, hnodes⟩
+  refine ⟨⟨r', ?_, ?_, ?_, ?_, ?_⟩, hold, hnew, hnodes⟩
   · intro n o' ho' w' hw'
     by_cases hmem : n ∈ g.nodes.map (·.1)
     · rw [hold n hmem] at ho'
@@ -144,6 +288,21 @@ theorem NInv.insertBefore {W : List Wire} {g : MG} {body : Wire → List Nd} (h 
       rw [hn] at hk
       injection hk with hk
       omega
+  · rw [insertAt_eq]
+    exact tripNodup_splice r1 h.trips e hem (g.nodeId + 1) hfreshP
+  · obtain ⟨ns, hlin⟩ := h.lin
+    have hbnd : (body wq).Nodup := by
+      have := h.rep.pathNodup wq hwq
+      unfold pathOf at this
+      exact ((List.nodup_cons.1 this).2).of_append_left
+    have hxb : ∀ w ∈ W, Nd.op (g.nodeId + 1) ∉ body w := by
+      intro w hw hm
+      exact hfreshN (h.rep.path_mem_nodes w hw _ ((mem_pathOf _ _ _).2 (Or.inr (Or.inl hm))))
+    have hx : Nd.op (g.nodeId + 1) ∉ ns := by
+      intro hm
+      obtain ⟨w, hw, hmw⟩ := hlin.2.1 _ hm
+      exact hxb w hw hmw
+    exact linOK_insert W body ns hlin wq hwq b1 b2 p _ hb hbnd hx hxb
 
 /-! ## `remove_op`: the edges -/
 
@@ -575,7 +734,7 @@ theorem NInv.removeOne {W : List Wire} {g : MG} {body : Wire → List Nd} (h : N
       rw [hnodes] at hm
       obtain ⟨q, hq, hq1⟩ := List.mem_map.1 hm
       exact List.mem_map.2 ⟨q, (List.mem_filter.1 hq).1, hq1⟩
-  refine ⟨⟨hrep, ?_, ?_, ?_⟩, hop, hnodes⟩
+  refine ⟨⟨hrep, ?_, ?_, ?_, ?_, ?_⟩, hop, hnodes⟩
   · intro n o' hn w' hw'
     rw [hop n] at hn
     split at hn
@@ -612,6 +771,52 @@ theorem NInv.removeOne {W : List Wire} {g : MG} {body : Wire → List Nd} (h : N
     rw [hnodes] at hn
     obtain ⟨q, hq, hq1⟩ := List.mem_map.1 hn
     exact List.mem_map.2 ⟨q, (List.mem_filter.1 hq).1, hq1⟩
+  · -- no parallel edges with the same key: `p` has exactly one in-edge and one out-edge
+    obtain ⟨ie, hie, hie1, hie2, hie3⟩ := h.rep.edge_complete wq hwq a p (by rw [hpath]; exact ⟨l1, b :: l2, rfl⟩)
+    obtain ⟨oe, hoe, hoe1, hoe2, hoe3⟩ := h.rep.edge_complete wq hwq p b (by rw [hpath]; exact ⟨l1 ++ [a], l2, by simp⟩)
+    have hins : g.edges.filter (fun e => e.dst == p) = [ie] := by
+      apply filter_singleton_of_trip g.edges h.trips _ ie hie (by simp [hie2])
+      intro e he hP
+      have hd : e.dst = p := by simpa using hP
+      obtain ⟨hk, hs⟩ := hin e he hd
+      simp only [trip, hd, hk, hs, hie1, hie2, hie3]
+    have houts : g.edges.filter (fun e => e.src == p) = [oe] := by
+      apply filter_singleton_of_trip g.edges h.trips _ oe hoe (by simp [hoe1])
+      intro e he hP
+      have hs : e.src = p := by simpa using hP
+      obtain ⟨hk, hd⟩ := hout e he hs
+      simp only [trip, hd, hk, hs, hoe1, hoe2, hoe3]
+    have hkeq : (ie.key == oe.key) = true := by simp [hie3, hoe3]
+    unfold TripNodup
+    rw [hedges]
+    unfold rmEdges
+    rw [hins, houts]
+    simp only [List.foldl_cons, List.foldl_nil, rmStep, rmOut, addNew, hkeq, if_true]
+    unfold MG.removeEdge
+    refine List.Nodup.sublist (List.Sublist.map _ (List.filter_sublist.trans List.filter_sublist)) ?_
+    show ((g.edges ++ [newEdge ie oe]).map trip).Nodup
+    rw [List.map_append, List.nodup_append]
+    refine ⟨h.trips, by simp, ?_⟩
+    intro t ht t' ht' htt
+    simp only [List.map_cons, List.map_nil, List.mem_singleton] at ht'
+    obtain ⟨e', he', hte'⟩ := List.mem_map.1 ht
+    rw [htt, ht'] at hte'
+    simp only [trip, newEdge, Prod.mk.injEq] at hte'
+    obtain ⟨hs', hd', hk'⟩ := hte'
+    obtain ⟨_, hadj⟩ := h.rep.edge_sound0 e' he'
+    rw [hs', hd', hk', hie1, hoe2, hoe3, hpath] at hadj
+    obtain ⟨r', hr'⟩ := adj_next _ (hpath ▸ hnd) l1 (p :: b :: l2) a b rfl hadj
+    injection hr' with hpb _
+    apply hpnot
+    rw [hpb]
+    simp
+  · obtain ⟨ns, hlin⟩ := h.lin
+    have hbnd : (body wq).Nodup := by
+      have := hnd
+      unfold pathOf at this
+      exact ((List.nodup_cons.1 this).2).of_append_left
+    exact linOK_remove W body ns hlin wq hwq b1 b2 p hb hbnd
+      (fun w hw hk hm => hk (honly w hw ((mem_pathOf _ _ _).2 (Or.inr (Or.inl hm)))))
 
 /-! ## one wrapper node: insert the unwrapped operations before it, then remove it -/
 
@@ -1180,13 +1385,75 @@ theorem gateOpsOf_mem_opOf (g : MG) (hn : (g.nodes.map (·.1)).Nodup) (o : Op) (
   | input _ => rw [h2] at hg; cases hg
   | output _ => rw [h2] at hg; cases hg
 
-/-- **the normalised DAG (`unwrap_nodes`, `remove_identity`) is a family of register paths carrying the flattened
-    operations**, and it has one node per executed operation besides the input and output nodes -/
-theorem normalise_full (W : List Wire) (g : MG) (l : List Op) (h : BuildInv W g l) :
-    GraphInv W g.normalise (fun w => (flat l).filter (touches w)) ∧
-    g.normalise.nodes.length = 2 * W.length + (flat l).length := by
-  obtain ⟨body, r, _, hid, hops, hon, hnames, hgl, hio, _⟩ := h
-  have h0 : NInv W g body := ⟨r, hon, hnames, hid⟩
+/-- the DAG built from `l` is linearly ordered by the operation index -/
+theorem linOK_build (W : List Wire) (g : MG) (l : List Op) (body : Wire → List Nd) (hbo : ∀ w, body w = bodyOf l w)
+    (hat : ∀ k (hk : k < l.length), g.opOf (.op (k + 1)) = some (.gate l[k]))
+    (hon : ∀ n o, g.opOf n = some (.gate o) → ∀ w' ∈ opWires o, w' ∈ W ∧ n ∈ body w') :
+    LinOK W body (l.zipIdx.map (fun p => Nd.op (p.2 + 1))) := by
+  have hz : ∀ p ∈ l.zipIdx, ∃ hk : p.2 < l.length, p.1 = l[p.2] := by
+    intro p hp
+    have := List.mem_zipIdx hp
+    simp only [Nat.zero_add, Nat.sub_zero] at this
+    exact ⟨this.2.1, this.2.2⟩
+  refine ⟨?_, ?_, ?_⟩
+  · have e : l.zipIdx.map (fun p => Nd.op (p.2 + 1)) = (List.range' 0 l.length).map (fun i => Nd.op (i + 1)) := by
+      rw [← List.zipIdx_map_snd 0 l, List.map_map]; rfl
+    rw [e]
+    apply List.Nodup.map _ List.nodup_range'
+    intro a b hab
+    injection hab with hab
+    omega
+  · intro n hn
+    obtain ⟨p, hp, rfl⟩ := List.mem_map.1 hn
+    obtain ⟨hk, _⟩ := hz p hp
+    have hop := hat p.2 hk
+    obtain ⟨w, hw⟩ : ∃ w, w ∈ opWires l[p.2] := by
+      have : opWires l[p.2] ≠ [] := by
+        unfold opWires
+        have := qRegs_ne_nil l[p.2]
+        cases hq : (l[p.2]).qRegs with
+        | nil => exact absurd hq this
+        | cons _ _ => simp
+      cases hh : opWires l[p.2] with
+      | nil => exact absurd hh this
+      | cons w _ => exact ⟨w, by simp⟩
+    obtain ⟨a, b⟩ := hon _ _ hop w hw
+    exact ⟨w, a, b⟩
+  · intro w _
+    rw [List.filter_map]
+    conv => lhs; rw [hbo w]; unfold bodyOf
+    congr 1
+    apply List.filter_congr
+    intro p hp
+    simp only [Function.comp]
+    apply Bool.eq_iff_iff.2
+    simp only [decide_eq_true_eq]
+    constructor
+    · intro hP
+      rw [hbo w]
+      unfold bodyOf
+      exact List.mem_map.2 ⟨p, List.mem_filter.2 ⟨hp, by simpa using hP⟩, rfl⟩
+    · intro hQ
+      rw [hbo w] at hQ
+      unfold bodyOf at hQ
+      obtain ⟨p', hp', he⟩ := List.mem_map.1 hQ
+      obtain ⟨hp'm, hP'⟩ := List.mem_filter.1 hp'
+      injection he with he
+      have he2 : p'.2 = p.2 := by omega
+      obtain ⟨hk, h1⟩ := hz p hp
+      obtain ⟨hk', h1'⟩ := hz p' hp'm
+      have : p'.1 = p.1 := by rw [h1, h1']; simp only [he2]
+      rw [← this]
+      simpa using hP'
+
+/-- the normalised DAG with everything the invariant carries: register paths, no parallel edges with one key, a linear
+    order of the operation nodes, and on every register the flattened operations -/
+theorem normalise_nInv (W : List Wire) (g : MG) (l : List Op) (h : BuildInv W g l) :
+    ∃ body2, NInv W g.normalise body2 ∧
+      (∀ w ∈ W, wireOps g.normalise body2 w = (flat l).filter (touches w)) ∧
+      g.normalise.nodes.length = 2 * W.length + (flat l).length := by
+  obtain ⟨body, r, _, hid, hops, hon, hnames, hgl, hio, _, hbo0, hat0, htn0⟩ := h
+  have h0 : NInv W g body := ⟨r, hon, hnames, hid, htn0, _, linOK_build W g l body hbo0 hat0 hon⟩
   -- unwrap
   obtain ⟨body1, h1, hT1, hno1, hP1, hI1⟩ := unwrap_fold (g.nodes.filter (fun p => isWrapper p.2)) g body h0
     (hnames.sublist (List.Sublist.map _ List.filter_sublist))
@@ -1211,9 +1478,8 @@ theorem normalise_full (W : List Wire) (g : MG) (l : List Op) (h : BuildInv W g 
       have := opOf_some_pair_mem _ m _ hm
       exact List.mem_map.2 ⟨_, List.mem_filter.2 ⟨this, rfl⟩, rfl⟩)
   rw [← removeIdentity_eq] at h2 hT2 hno2 hP2 hI2
-  constructor
-  · refine ⟨body2, h2.rep, ?_, h2.onPath⟩
-    intro w hw
+  refine ⟨body2, h2, ?_, ?_⟩
+  · intro w hw
     show wireOps g.unwrapNodes.removeIdentity body2 w = (flat l).filter (touches w)
     rw [flat_filter_touches, ← hops w hw, ← hT1 w hw]
     have e1 : (wireOps g.unwrapNodes body1 w).flatMap Op.unwrap = wireOps g.unwrapNodes body1 w := by
@@ -1260,6 +1526,14 @@ theorem normalise_full (W : List Wire) (g : MG) (l : List Op) (h : BuildInv W g 
     have hlen := length_io_gate g.unwrapNodes.removeIdentity.nodes
     show g.unwrapNodes.removeIdentity.nodes.length = _
     rw [hlen, hperm.length_eq, hI2, hI1, hio]
+
+/-- **the normalised DAG (`unwrap_nodes`, `remove_identity`) is a family of register paths carrying the flattened
+    operations**, and it has one node per executed operation besides the input and output nodes -/
+theorem normalise_full (W : List Wire) (g : MG) (l : List Op) (h : BuildInv W g l) :
+    GraphInv W g.normalise (fun w => (flat l).filter (touches w)) ∧
+    g.normalise.nodes.length = 2 * W.length + (flat l).length := by
+  obtain ⟨body2, h2, hw, hc⟩ := normalise_nInv W g l h
+  exact ⟨⟨body2, h2.rep, hw, h2.onPath⟩, hc⟩
 
 theorem normalise_graphInv (W : List Wire) (g : MG) (l : List Op) (h : BuildInv W g l) :
     GraphInv W g.normalise (fun w => (flat l).filter (touches w)) := (normalise_full W g l h).1
